@@ -151,68 +151,49 @@ def run(ctx):
         ctx.floor(rs, 300)
 
     if ctx.want("R2"):
-        rs = ctx.rule("R2", "compute-once: handler call under a memo miss, stored under the same key")
-        for q in [DAG] + [x for x in repo.subclasses(DAG, strict=True) if repo.classes[x].own_func("_compute_node_result")]:
-            cq, f = repo.find_method(q, "_compute_node_result")
-            cfg = CFG(f)
-            key_asg = [n for n in ast.walk(f) if isinstance(n, ast.Assign) and isinstance(n.value, ast.Call)
-                       and attr_tail(n.value) == "_get_key" and isinstance(n.targets[0], ast.Name)]
-            if not key_asg:
-                rs.unrec("%s._compute_node_result: key computation not recognised" % q)
+        rs = ctx.rule("R2", "compute-once: traversal interpreted on shared DAGs, handler calls and work grow with nodes, not paths")
+        from . import walk_deep as wd
+        res, others, towers = wd.results(repo, ctx.tier)
+        ctx.analysed["walker_classes_interpreted"] = sorted(set(r["cls"] for r in res))
+        ctx.analysed["walker_classes_not_interpreted"] = others
+        for r in res:
+            key = "%s|%s" % (r["cls"], r["shape"])
+            cq, f = repo.find_method(r["cls"], "walk")
+            loc = method_loc(repo, cq, f) if f is not None else r["cls"]
+            if r["kind"] != "ok":
+                rs.unrec("%s on %s: %s" % (r["cls"], r["shape"], "; ".join(r["notes"])[:200]))
                 continue
-            key = key_asg[0].targets[0].id
-            store = [n for n in cfg.nodes if n.kind == "stmt" and isinstance(n.ast, ast.Assign) and
-                     norm(n.ast.targets[0]) == "self.memoization[%s]" % key]
-            miss = lambda n: n.kind == "test" and norm(n.ast) == "%s not in self.memoization" % key
-            if not store:
-                ctx.finding(rs, "%s._compute_node_result|no-store" % q,
-                            "the handler result is not stored under the node's key: every parent recomputes the "
-                            "sub-DAG (exponential on shared formulas)", method_loc(repo, cq, f))
-                continue
-            s = store[0]
-            is_handler_call = isinstance(s.ast.value, ast.Call) and norm(s.ast.value.func) == "f"
-            if not is_handler_call:
-                rs.unrec("%s: stored value is %s" % (q, short(s.ast.value)))
-            elif cfg.dominated_by(s.id, miss, follow=normal_only):
-                rs.ok({"class": q.split(".")[-1], "guard": "%s not in self.memoization" % key, "store": short(s.ast)})
+            if r["dup"]:
+                h, n, c = r["dup"][0]
+                ctx.finding(rs, "%s|handler-repeated" % r["cls"],
+                            "%s: during one walk of %s the handler %s runs %d times on the shared node %s: shared "
+                            "sub-formulas are recomputed per occurrence (exponential on DAGs)"
+                            % (r["cls"].split(".")[-1], r["shape"], h, c, n), loc)
+            elif not r["one_shot"] and r["second_calls"]:
+                ctx.finding(rs, "%s|memo-miss" % r["cls"],
+                            "%s keeps its memo across calls, yet a second request for %s runs %d handlers again"
+                            % (r["cls"].split(".")[-1], r["shape"], r["second_calls"]), loc)
             else:
-                ctx.finding(rs, "%s._compute_node_result|unguarded" % q,
-                            "the handler runs even when the node is already memoised", method_loc(repo, cq, s.ast))
-        for q in [DAG] + [x for x in repo.subclasses(DAG, strict=True) if repo.classes[x].own_func("_push_with_children_to_stack")]:
-            cq, f = repo.find_method(q, "_push_with_children_to_stack")
-            # children pushes must be guarded by "key not in self.memoization"
-            par = parents(f)
-            pushes = [c for c in calls_in(f) if attr_tail(c) == "append" and "self.stack" in norm(c.func)
-                      and isinstance(c.args[0], ast.Tuple) and isinstance(c.args[0].elts[0], ast.Constant)
-                      and c.args[0].elts[0].value is False]
-            for c in pushes:
-                p = c
-                guarded = False
-                while p in par:
-                    qn = par[p]
-                    if isinstance(qn, ast.If) and p in qn.body and "not in self.memoization" in norm(qn.test):
-                        guarded = True
-                    p = qn
-                if guarded:
-                    rs.ok({"class": q.split(".")[-1], "child_push": "only if not memoised"})
-                else:
-                    ctx.finding(rs, "%s._push_with_children_to_stack|unguarded-push" % q,
-                                "children are pushed even when already memoised: shared sub-formulas are expanded "
-                                "once per occurrence", method_loc(repo, cq, c))
-            if not pushes:
-                # delegates to the base implementation?
-                if any(attr_tail(c) == "_push_with_children_to_stack" for c in calls_in(f)):
-                    rs.ok({"class": q.split(".")[-1], "child_push": "delegates to base implementation"})
-                else:
-                    rs.unrec("%s._push_with_children_to_stack: no child push recognised" % q)
-        # walk(): memo hit returns immediately
-        cq, f = repo.find_method(DAG, "walk")
-        first = [s for s in f.body if isinstance(s, ast.If)]
-        if first and norm(first[0].test) == "formula in self.memoization":
-            rs.ok({"walk": "memo hit returns without traversal"})
-        else:
-            rs.unrec("DagWalker.walk: memo-hit shortcut not recognised")
-        ctx.floor(rs, 4)
+                rs.ok({"class": r["cls"].split(".")[-1], "shape": r["shape"], "handler_calls": r["clean_calls"],
+                       "repeated": 0, "second_request_calls": r["second_calls"], "one_shot_memo": r["one_shot"]})
+        for t in towers:
+            cq, f = repo.find_method(t["cls"], "walk")
+            loc = method_loc(repo, cq, f) if f is not None else t["cls"]
+            if t["kind"] != "ok":
+                rs.unrec("%s on %s towers: %s" % (t["cls"], t["family"], t.get("note", "")))
+                continue
+            (s5, s10), (c5, c10) = t["steps"], t["calls"]
+            if c10 > 13 or s10 > 3 * s5:
+                ctx.finding(rs, "%s|work-grows-with-paths|%s" % (t["cls"], t["family"]),
+                            "%s: a %s tower x' = op(x, x) of depth 10 (13 distinct nodes, 1024 paths) costs %d "
+                            "interpreted steps and %d handler calls against %d / %d at depth 5: traversal work follows "
+                            "the number of paths, not of nodes"
+                            % (t["cls"].split(".")[-1], {"bool": "Boolean And", "arith": "arithmetic Plus"}[t["family"]],
+                               s10, c10, s5, c5), loc)
+            else:
+                rs.ok({"class": t["cls"].split(".")[-1], "tower": t["family"], "tower_depths": [5, 10], "interpreted_steps": t["steps"],
+                       "handler_calls": t["calls"], "rule": "steps(10) <= 3*steps(5), calls(10) == distinct nodes"})
+        ctx.floor(rs, 40)
 
     if ctx.want("R3"):
         rs = ctx.rule("R3", "handlers do not re-enter the traversal of their own walker on a sub-term")
